@@ -48,6 +48,12 @@ pub fn run_one(prop: &str, seed: u64, findings: &BTreeSet<String>, want_sample: 
         vec![]
     };
     let nsteps = steps.len();
+    if want_sample {
+        if let Ok(p) = std::env::var("VERIF_DUMP") {
+            let t = Trace { tool: TOOL.to_string(), property: prop.to_string(), seed, monitor: String::new(), detail: String::new(), cfg: cfg.clone(), steps: steps.clone() };
+            let _ = std::fs::write(p, serde_json::to_string(&t).unwrap());
+        }
+    }
     let violation = violation.map(|v| {
         let t = Trace {
             tool: TOOL.to_string(),
